@@ -123,16 +123,11 @@ func verif_HTTPAuthMiddleware_handler(w http.ResponseWriter, r *http.Request) {
 // only when TLS is not forced. The sniff itself runs under the read deadline.
 //
 //verif:contract ~/pkg/util/net.CheckAndEnableTLSServerConnWithTimeout
-//verif:props C05 C01 C17 C16
+//verif:props C05 C01
 func verif_CheckAndEnableTLSServerConnWithTimeout(c net.Conn, tlsConfig *tls.Config, tlsOnly bool, timeout time.Duration) {
 	verif.ResetEvents()
 	out, isTLS, custom, err := CheckAndEnableTLSServerConnWithTimeout(c, tlsConfig, tlsOnly, timeout)
 	verif.Ensures(verif.CalledBefore("Conn).SetReadDeadline", "SharedConn).Read") || verif.CalledBefore("Conn).SetReadDeadline", ").Read"), "sniff_under_deadline")
-	// C17 / C16: a peer that connects and stays silent is given up after the
-	// timeout (the sniff runs in the accept loop: without a deadline one silent
-	// peer stops the server accepting anyone) - the deadline armed first is
-	// now + timeout, on the connection being sniffed
-	verif.Ensures(verif.NthArg[net.Conn]("Conn).SetReadDeadline", 0, 0) == c && verif.CalledWith("Time).Add", 1, timeout) && verif.Same(verif.NthArg[time.Time]("Conn).SetReadDeadline", 0, 1), verif.Ret[time.Time]("Time).Add", 0)), "deadline_of_now_plus_timeout_armed_first")
 	if err == nil {
 		verif.Ensures(out != nil, "connection_or_error")
 		if isTLS {
@@ -228,20 +223,20 @@ func verif_StatsConn_Write(sc *StatsConn, p []byte) {
 	verif.Ensures(sc.totalWrite == w0+int64(n), "bytes_accounted")
 }
 
-// WrapReadWriteCloserConn.RemoteAddr (C02: the https2http / https2https plugins
-// queue the work connection's stream "with the user's source address as its
-// peer address", from which the reverse proxy extends the forwarded-for chain):
-// an address set explicitly wins over the underlying connection's.
+// wrapQuicStream.Close (C01 "when an endpoint that has finished writing closes
+// ... the peer receives the complete stream followed by end-of-stream"; quic is
+// one of the control transports every tunnel runs over): closing a stream ends
+// the send direction in order - the stream's own Close, which sends what was
+// written followed by FIN - and never resets it (CancelWrite discards what the
+// peer has not consumed yet); only the receive direction is cancelled.
 //
-//verif:contract (*~/pkg/util/net.WrapReadWriteCloserConn).RemoteAddr
-//verif:props C02
-func verif_WrapReadWriteCloserConn_RemoteAddr(conn *WrapReadWriteCloserConn) {
-	set := conn.remoteAddr
+//verif:contract (*~/pkg/util/net.wrapQuicStream).Close
+//verif:props C01
+//verif:kinds post
+func verif_wrapQuicStream_Close(conn *wrapQuicStream) {
 	verif.ResetEvents()
-	a := conn.RemoteAddr()
-	if set != nil {
-		verif.Ensures(a == set && !verif.Called("net.Conn).RemoteAddr"), "explicit_peer_address_wins")
-	} else if conn.underConn != nil {
-		verif.Ensures(verif.CalledWith("net.Conn).RemoteAddr", 0, conn.underConn) && a == verif.Ret[net.Addr]("net.Conn).RemoteAddr", 0), "otherwise_the_underlying_connections")
-	}
+	err := conn.Close()
+	const ev = "io.Closer).Close"
+	verif.Ensures(verif.CallCount(ev) == 1 && verif.Same(verif.NthArg[any](ev, 0, 0), any(conn.Stream)) && err == verif.RetErr(ev, 0), "send_direction_of_the_wrapped_stream_closed_in_order_once")
+	verif.Ensures(!verif.Called("CancelWrite"), "written_bytes_never_discarded_by_a_reset")
 }
